@@ -209,6 +209,9 @@ fn chain_cfg(gd: Act) -> Cfg {
         ins("C", &[&[s(1), s(1)]]),
         ins("C", &[&[s(2), s(2)]]),
         ins("C", &[&[s(3), s(1)]]),
+        // two children of parent 1 in one statement: a blocked grandchild below the *second* of them
+        // is then within the quick bound (pre-checks that stop at the first referencing row)
+        ins("C", &[&[s(1), s(1)], &[s(3), s(1)]]),
         ins("G", &[&[s(1), s(1)]]),
         ins("G", &[&[s(2), s(2)]]),
         ins("G", &[&[s(3), s(3)]]),
